@@ -271,7 +271,7 @@ def classify_unicode_failure(s, what):
 # ---- the check -------------------------------------------------------------------------
 def run(ctx: core.Run):
     warnings.simplefilter("ignore")
-    gen = extract_c19.gen_strings(ctx)
+    gen = ctx.regenerate(extract_c19.gen_strings)
     ctx.prove(["PsdVerif.Props.C19"])
     ctx.trusted_base += [
         "Lean 4.33 kernel; axioms allowed: propext, Classical.choice, Quot.sound (audited per theorem)",
